@@ -73,7 +73,9 @@ impl Report {
                 }
             }
         }
-        let _ = std::fs::remove_dir_all(format!("{}/replays/{}", crate::verif_dir(), id));
+        if std::env::var("VERIF_REPLAY_MODE").is_err() {
+            let _ = std::fs::remove_dir_all(format!("{}/replays/{}", crate::verif_dir(), id));
+        }
         Report {
             id: id.to_string(),
             tier: tier.to_string(),
